@@ -116,9 +116,10 @@ class DefaultEvaluatorStep(PlanStep):
             exit_code = exc.exit_code
 
         if results:
-            assert isinstance(results[0], FunctionResults)
-            if results[0].functions is None:
-                exit_code = OptimizerExitCode.TOO_FEW_REALIZATIONS
+            for item in results:
+                assert isinstance(item, FunctionResults)
+                if item.functions is None:
+                    exit_code = OptimizerExitCode.TOO_FEW_REALIZATIONS
 
             if metadata is not None:
                 for item in results:
